@@ -679,6 +679,15 @@ def translate_command_step(tree, handlers, params_of):
     lines.append("    | .error s =>")
     lines.append("      let s := { s with _executing := false }")
     lines.append("      (fin { s with out := s.out ++ [Ev.write (error_packet s) true] }, true)")
+    lines.append("")
+    lines.append("/-- **the `while True` of `command_phase`** over the packets the client sends, in order: read a packet (none left: the peer is\n"
+                 "    gone, `ConnectionClosed` → `return`), run one iteration, go on unless it returned.  `true`: ended by COM_QUIT -/")
+    lines.append("def command_loop%s (other_handler : Nat → Connection S → Bytes → Except (Connection S) (Connection S)) (error_packet : Connection S → Bytes) : (Connection S) → List Bytes → (Connection S) × Bool" % extra)
+    lines.append("  | self, [] => (self, false)")
+    lines.append("  | self, data :: more =>")
+    lines.append("    match command_step %s other_handler error_packet self data with" % allp)
+    lines.append("    | (s, true) => command_loop %s other_handler error_packet s more" % allp)
+    lines.append("    | (s, false) => (s, true)")
     return "\n".join(lines) + "\n"
 
 
